@@ -98,6 +98,38 @@ pub fn sessions(tier: Tier) -> Vec<Sess> {
     v
 }
 
+/// One frame of the server above 2 MiB (the formatting answer for a 2.5 MB document, larger
+/// than what one write call to a pipe or to tokio's stdout takes), followed by more traffic:
+/// the output must stay well-framed and every request answered. Against the binary.
+pub fn eval_huge_response() -> Option<(String, String)> {
+    let text = format!("proc main() {{\n{}}}\n", "  printi(12345); // comment \u{20ac}\n".repeat(80_000));
+    let mut s = Session::new(false);
+    s.open(URI, &text);
+    let a = s.request("textDocument/formatting", json!({"textDocument": {"uri": URI}, "options": {"tabSize": 4, "insertSpaces": true}}));
+    let b = s.request("textDocument/foldingRange", json!({"textDocument": {"uri": URI}}));
+    s.msgs.push(request(1000, "shutdown", Value::Null));
+    s.msgs.push(notification("exit", Value::Null));
+    let o = procdrv::run_chunks(&[s.bytes()], false, Duration::from_secs(120));
+    if o.timed_out {
+        return Some(("hang".into(), "no exit within 120 s".into()));
+    }
+    if let Some(e) = &o.frame_error {
+        return Some(("malformed-output".into(), truncate(e, 300)));
+    }
+    let find = |id: i64| o.frames.iter().find(|f| f.get("method").is_none() && f["id"].as_i64() == Some(id));
+    let new_len = find(a).and_then(|f| f["result"][0]["newText"].as_str()).map(|t| t.len()).unwrap_or(0);
+    if new_len < 2 * 1024 * 1024 {
+        return Some(("huge-frame-missing".into(), format!("formatting answer carries {} bytes of new text", new_len)));
+    }
+    if find(b).and_then(|f| f["result"].as_array()).map(|a| a.len()) != Some(1) || find(1000).is_none() {
+        return Some(("requests-behind-the-huge-frame-unanswered".into(), format!("ids answered: {:?}", o.frames.iter().map(|f| f["id"].clone()).collect::<Vec<_>>())));
+    }
+    if o.exit_code != Some(0) {
+        return Some(("exit-status".into(), format!("{:?}", o.exit_code)));
+    }
+    None
+}
+
 /// observable behaviour of one run: responses in order, notifications in order
 fn observe(o: &Outcome) -> Result<(Vec<Value>, Vec<Value>), String> {
     if let Some(e) = o.error.clone().or(o.frame_error.clone()) {
@@ -230,6 +262,16 @@ pub fn run(tier: Tier) -> Report {
         stats.push(json!({"session": s.name, "bytes": n, "segmentations": count, "failing": f.len(), "responses": base_obs.0.len(), "notifications": base_obs.1.len()}));
         fails.extend(f.into_iter().take(200));
     }
+    // a frame of the server above 2 MiB
+    {
+        let t0 = std::time::Instant::now();
+        evals.fetch_add(1, Ordering::Relaxed);
+        let bad = eval_huge_response();
+        stats.push(json!({"session": "huge-response (binary)", "seconds": t0.elapsed().as_secs_f64(), "failing": bad.is_some() as u32}));
+        if let Some((k, d)) = bad {
+            fails.push(Failure { key: format!("framing:binary:huge-response:{}", k), case: json!({"huge_response": true}), detail: d });
+        }
+    }
     // reads that find no data yet (Pending) as scheduler choices: minimal session, every
     // two-way split, all schedules with <= 1 preemption, a client task feeding the chunks
     let mut sched_execs = 0u64;
@@ -311,6 +353,9 @@ pub fn run(tier: Tier) -> Report {
 }
 
 pub fn replay(case: &Value) -> Vec<Failure> {
+    if case["huge_response"] == json!(true) {
+        return eval_huge_response().map(|(k, d)| vec![Failure { key: format!("framing:binary:huge-response:{}", k), case: case.clone(), detail: d }]).unwrap_or_default();
+    }
     let name = case["session"].as_str().unwrap_or("");
     let Some(s) = sessions(Tier::Quick).into_iter().find(|s| s.name == name) else { return vec![] };
     let cuts: Vec<usize> = case["cuts"].as_array().map(|a| a.iter().filter_map(|v| v.as_u64().map(|x| x as usize)).collect()).unwrap_or_default();
